@@ -254,7 +254,11 @@ namespace nmtools::array
                     out_data_ptr[i] = identity;
                 }
                 auto inp_shape = nmtools::shape(*input_array_ptr);
-                auto reduction_axis = view.axis;
+                // the enumerators expect 0 <= axis < dim: normalize a negative axis
+                nm_index_t reduction_axis = view.axis;
+                if (reduction_axis < 0) {
+                    reduction_axis += (nm_index_t)len(inp_shape);
+                }
                 auto reduction_kind = (reduction_axis == -1) || ((int)reduction_axis == (int)(len(inp_shape)-1)) ? ReductionKind::HORIZONTAL : ReductionKind::VERTICAL;
                 // "normalize" the out shape as if keepdims=True
                 auto out_shape_ = [&](){
